@@ -410,6 +410,7 @@ func init() {
 }
 
 var c01held, c01heldCopy []byte
+var c01heldG, c01heldWant orb.Geometry
 
 var c01longDst c01dest
 var c01longRet [10]retained
@@ -678,6 +679,12 @@ func c01one(c *h.Ctx, r *h.Rand, g, snap, want orb.Geometry, isNil bool, order b
 	if !check("wkb.Unmarshal", gw, 0, 0, err) {
 		return
 	}
+	// a value returned by an earlier Unmarshal stays the caller's: the decodes since then (every path of the previous case,
+	// and this one) did not write into it
+	if c01heldG != nil && !refmodel.EqualBits(c01heldG, c01heldWant) {
+		fail("", "a geometry returned by an earlier wkb.Unmarshal call was changed by later decodes", map[string]interface{}{"earlier_value_now": sv(c01heldG), "earlier_value_then": sv(c01heldWant)})
+	}
+	c01heldG, c01heldWant = gw, refmodel.Copy(want)
 	ge, gs, err := ewkb.Unmarshal(append([]byte{}, edata...))
 	if !check("ewkb.Unmarshal", ge, gs, srid, err) {
 		return
